@@ -1806,7 +1806,13 @@ fn main() {
          all three operand classes) encoded by the Lean encoders for BIFF8 and for xlsb and decoded by the real \
          parse_formula through the hooks, by the Lean model, and rendered by an independent A1 oracle. (4) raw / \
          mutated token streams (truncation, byte flips, opcode soup, arbitrary UTF-16 units): real decoder vs model \
-         (result, error class, panic). Stated restrictions: string literals contain no '\"' (decoders copy characters \
+         (result, error class, panic). (5) file level: generated .xls/.xlsb workbooks (formula records at random cells, \
+         3-D references and names through the workbook's own tables) and generated .xlsx (random layouts: `r` written or \
+         omitted on rows and cells, prefixes, self-closing, whitespace, dimension present/absent/wrong; formulas on value \
+         cells and formula-only cells; texts needing XML escapes) and .ods (repeated rows/cells, blank runs, formula-only \
+         cells) read through worksheet_formula: the exact rectangle (bounding box of the formula cells) and the text at \
+         every position vs the logical sheet; for xlsx also vs the Lean model of next_formula run on the very XML events \
+         that were written. Stated restrictions: plain (non-shared) xlsx formulas only (shared groups are C15); string literals contain no '\"' (decoders copy characters \
          verbatim), sheet names are rendered without quoting, numbers as Rust Display prints them (the model prints a \
          placeholder which the harness substitutes), code page 1200 (BIFF8), xls rows < 65536; function names \
          are compared against the crate's own FTAB (golden) plus 96 names/arities hard-coded from MS-XLS. non-trivial = \
